@@ -638,8 +638,6 @@ class Client:
         ret: List[str] = []
         active_script: str = None
         for l in listing.splitlines():
-            if self.__size_expr.match(l):
-                continue
             m = re.match(rb'"([^"]+)"\s*(.+)', l)
             if m is None:
                 ret += [l.strip(b'"').decode("utf-8")]
@@ -667,9 +665,9 @@ class Client:
             "GETSCRIPT", [name.encode("utf-8")], withcontent=True
         )
         if code == "OK":
+            # the size indication is not part of content (see
+            # __read_response), every line belongs to the script
             lines = content.splitlines()
-            if self.__size_expr.match(lines[0]) is not None:
-                lines = lines[1:]
             return "\n".join([line.decode("utf-8") for line in lines])
         return None
 
